@@ -1,35 +1,22 @@
 #!/usr/bin/env python3
-"""Writes /verif/MANIFEST.json from the table below (kept here so that the manifest is always
-schema-valid and consistent with what ./check implements)."""
+"""Writes /verif/MANIFEST.json from /verif/claims.json (property -> technique, text, note, design_ref),
+so that the manifest is always schema-valid and consistent with what ./check implements.  A property
+without an entry in claims.json is listed under not_applicable with the reason given in
+claims.json["_not_claimed"][id] (default: not built yet)."""
 import json, os, subprocess
 V = os.path.dirname(os.path.dirname(os.path.abspath(__file__)))
-
-# property -> (claimed?, technique, level text, level note, design ref)
-CLAIMS = {
- "C20": ("Coq theorems over an executable Gallina model of the deadline arithmetic and polling loops "
-         "+ differential correspondence against the library under a scripted virtual clock",
-         "Machine-checked (Coq 8.16) theorems for all valid timespec operands, all clock sequences and all "
-         "availability scripts: exact addition/comparison, EINVAL iff malformed, return only at the first clock "
-         "reading strictly past start+request with one yield between polls, timeout only past the deadline and only "
-         "after every attempt failed, success whenever an attempt before the observed deadline finds the resource "
-         "available, first attempt before any clock test. The hand-written model is tied to the code by running "
-         "the extracted model and the real myth_nanosleep/usleep/sleep/mutex_timedlock/timedjoin (hooks-on build of "
-         "the current tree) on the same generated cases.",
-         "Trusted: Coq kernel; extraction (ExtrOcamlBasic only) + ocaml/driver_C20.ml; harness/c20_unit.c; the MYTH_VERIF "
-         "virtual-clock hook. Modelled not verified: clock_gettime; signed overflow of tv_sec (UB, excluded by guard). "
-         "Liveness (the loop ends) is proved only under the hypothesis that some later reading passes the deadline.",
-         "DESIGN.md section 4 C20"),
-}
-NOT_YET = "not built yet in this round (see DESIGN.md section 7, order of work)"
+NOT_YET = "check not finished in this round (work in progress, see DESIGN.md section 7); not claimed until it is green on the unchanged tree"
 
 def main():
     props = [json.loads(l)["id"] for l in open(os.path.join(V, "properties.jsonl"))]
+    claims = json.load(open(os.path.join(V, "claims.json")))
+    why_not = claims.pop("_not_claimed", {})
     repo_commits = subprocess.run(["git", "-C", "/repo", "log", "--format=%H %s", "--grep=^verif hooks"],
                                   capture_output=True, text=True).stdout.strip().split("\n")
     checks, na = [], []
     for p in props:
-        if p in CLAIMS:
-            tech, text, note, ref = CLAIMS[p]
+        if p in claims:
+            c = claims[p]
             checks.append({
                 "property_id": p,
                 "quick_cmd": "./check %s --tier quick" % p,
@@ -37,11 +24,11 @@ def main():
                 "evidence_file": "/verif/evidence/%s.json" % p,
                 "replay_cmd_template": "./check %s --replay {path}" % p,
                 "engine": "coq-proof+correspondence",
-                "level_claimed": {"category": "proof", "text": text, "design_ref": ref},
-                "level_note": note,
-                "technique": tech})
+                "level_claimed": {"category": "proof", "text": c["text"], "design_ref": c.get("design_ref", "DESIGN.md section 4 " + p)},
+                "level_note": c["note"],
+                "technique": c["technique"]})
         else:
-            na.append({"property_id": p, "reason": NOT_YET})
+            na.append({"property_id": p, "reason": why_not.get(p, NOT_YET)})
     m = {"version": 1,
          "setup_cmd": "./setup.sh",
          "hooks": {"guard": "MYTH_VERIF",
@@ -51,9 +38,10 @@ def main():
                    "source_commits": [c.split()[0] for c in repo_commits if c],
                    "add_only": True},
          "engines": [{"name": "coq-proof+correspondence", "path": "/verif/check",
-                      "serves_properties": sorted(CLAIMS),
+                      "serves_properties": sorted(claims),
                       "kind_free_text": "Coq 8.16 theorems about executable Gallina models (coq/), extracted to OCaml "
-                                        "(ocaml/) and run against harnesses built from /repo's working tree (harness/)"}],
+                                        "(ocaml/) and run against harnesses built from /repo's working tree (harness/); "
+                                        "translators regenerate Coq data from the source for C02/C03/C16/C19"}],
          "checks": checks,
          "not_applicable": na,
          "notes": "All checks: ./check <id> --tier quick|thorough. A VIOLATION line ends with no-failing-input-found when "
